@@ -434,6 +434,8 @@ static void enumerate_unit(const nmc::Tier& t, const nmc::Sink& emit) {
         for (long out = 1; out <= e; out++) for (long b = 0; b <= 1; b++) emit(Case("linear", {s, {out, in}, {b}}));
         for (auto& p : partners(s)) {
             for (long ord = 1; ord <= 2; ord++) for (long kd = 0; kd <= 1; kd++) { emit(Case("pairwise_distance", {s, p, {ord, kd}})); if (p != s) emit(Case("pairwise_distance", {p, s, {ord, kd}})); }
+            // eps = 0.5 instead of the default 1e-6 (with the default value a dropped or misplaced eps is invisible), and ord = 3
+            for (long ord = 1; ord <= 3; ord++) for (long kd = 0; kd <= 1; kd++) { if (ord == 3 && kd == 1) continue; emit(Case("pairwise_distance", {s, p, {ord, kd, 1}})); }
             long d = (long)std::max(s.size(), p.size());
             for (long a = -d; a < d; a++) { emit(Case("cosine_similarity", {s, p, {a}})); if (p != s) emit(Case("cosine_similarity", {p, s, {a}})); }
             // the same with an explicit eps = 10 that is ABOVE some of the norms along the axis: the clamp max(||x||, eps) per operand becomes observable
@@ -473,10 +475,11 @@ static Outcome execute_unit(const Case& c) {
     auto A = make_arr<double>(a), Bm = make_arr<double>(b);
     if (c.op == "pairwise_distance") {
         int ord = (int)c.a[2][0]; bool kd = c.a[2][1] != 0;
-        ROpt want = ref::pairwise_distance(a, b, ord, PD_EPS, kd);
+        const bool big_eps = c.a[2].size() > 2;
+        ROpt want = ref::pairwise_distance(a, b, ord, big_eps ? 0.5 : PD_EPS, kd);
         if (!want) return Outcome::bad("wrong", "harness: case outside the domain was enumerated");
         bool nt = std::max(sa.back(), sb.back()) >= 2;
-        float eps = 1e-6f;
+        float eps = big_eps ? 0.5f : 1e-6f;
         if (kd) return both(view::pairwise_distance(A, Bm, ord, eps, nm::True), na::pairwise_distance(A, Bm, ord, eps, nm::True), want, nt, 1e-9);
         return both(view::pairwise_distance(A, Bm, ord, eps, nm::False), na::pairwise_distance(A, Bm, ord, eps, nm::False), want, nt, 1e-9);
     }
